@@ -427,4 +427,12 @@ def splitLines (text : Str) : List Str := splitLinesAux text []
 /-- `read(io.StringIO(text)).prefixes` -/
 def readText (text : Str) : Py.R (List Entry) := read (splitLines text)
 
+/-- the registry tree of an embedded file text (`[]` if the reader fails).  A separate definition (not an inline
+`match` in `Gen.db_<name>.db`) so that `Gen.db_<name>.db` unfolds to `dbOfText (Py.ofString text)` without the
+kernel evaluating the reader. -/
+def dbOfText (text : Str) : List Entry :=
+  match readText text with
+  | .ok t => t
+  | .error _ => []
+
 end Spec.NumDB
